@@ -39,6 +39,58 @@ impl Wake for CountWaker {
     }
 }
 
+/// Waker of the stream consumer: counts wake-ups like `CountWaker`, and can
+/// perform one *in-poll drop* when it is cloned for the n-th time during a poll.
+pub struct HookState {
+    wakes: AtomicUsize,
+    clones: AtomicUsize,
+    armed_at: AtomicUsize,
+    /// The `FnRef` to drop inside the poll (lifetime erased; it is always taken
+    /// out again before the consumer, and thus the graph borrow, goes away).
+    slot: std::sync::Mutex<Option<FnRef<'static, TestFn>>>,
+}
+
+impl HookState {
+    fn new() -> Arc<Self> {
+        Arc::new(HookState {
+            wakes: AtomicUsize::new(0),
+            clones: AtomicUsize::new(0),
+            armed_at: AtomicUsize::new(usize::MAX),
+            slot: std::sync::Mutex::new(None),
+        })
+    }
+    fn waker(self: &Arc<Self>) -> Waker {
+        use std::task::{RawWaker, RawWakerVTable};
+        unsafe fn clone(p: *const ()) -> RawWaker {
+            Arc::increment_strong_count(p as *const HookState);
+            let st = &*(p as *const HookState);
+            let c = st.clones.fetch_add(1, Ordering::SeqCst) + 1;
+            if c == st.armed_at.load(Ordering::SeqCst) {
+                let f = st.slot.lock().unwrap().take();
+                // FnRef::drop notifies the stream: exactly what a drop on another
+                // thread does while this poll is in progress
+                drop(f);
+            }
+            RawWaker::new(p, &VTABLE)
+        }
+        unsafe fn wake(p: *const ()) {
+            let a = Arc::from_raw(p as *const HookState);
+            a.wakes.fetch_add(1, Ordering::SeqCst);
+        }
+        unsafe fn wake_by_ref(p: *const ()) {
+            (*(p as *const HookState)).wakes.fetch_add(1, Ordering::SeqCst);
+        }
+        unsafe fn drop_w(p: *const ()) {
+            drop(Arc::from_raw(p as *const HookState));
+        }
+        static VTABLE: RawWakerVTable = RawWakerVTable::new(clone, wake, wake_by_ref, drop_w);
+        let p = Arc::into_raw(self.clone()) as *const ();
+        // SAFETY: the vtable functions treat `p` as an `Arc<HookState>` whose
+        // fields are all thread-safe.
+        unsafe { Waker::from_raw(RawWaker::new(p, &VTABLE)) }
+    }
+}
+
 #[derive(Clone, Copy, Debug, PartialEq, Eq, Hash, Serialize, Deserialize)]
 pub enum Act {
     /// Poll the call future / `poll_next` the stream.
@@ -57,6 +109,12 @@ pub enum Act {
     /// before the graph run is polled, i.e. where in a task poll the budget runs
     /// out is a generated choice.
     Burn(usize),
+    /// Streams only: `poll_next` during which the held `FnRef` of function `.0`
+    /// is dropped at the moment the stream registers its waker for the `.1`-th
+    /// time in that poll (tokio clones the waker when it registers it on a
+    /// channel).  This is what a drop on another thread *during* the poll looks
+    /// like, made deterministic.
+    PollDropping(usize, usize),
 }
 
 #[derive(Clone, Debug, PartialEq, Eq, Hash, Serialize, Deserialize)]
@@ -772,7 +830,7 @@ impl Stepper for Runner<'_> {
                 }
                 true
             }
-            Act::Yield | Act::Burn(_) => false,
+            Act::Yield | Act::Burn(_) | Act::PollDropping(..) => false,
         }
     }
     fn set_deferred(&mut self, on: bool) {
@@ -820,7 +878,7 @@ pub enum Item<'g> {
 pub struct Consumer<'g> {
     stream: Option<Pin<Box<dyn Stream<Item = Item<'g>> + 'g>>>,
     n: usize,
-    cw: Arc<CountWaker>,
+    hook: Arc<HookState>,
     intr: Interrupter,
     effective: bool,
     held: Vec<FnRef<'g, TestFn>>,
@@ -871,7 +929,7 @@ impl<'g> Consumer<'g> {
         Consumer {
             stream,
             n,
-            cw: Arc::new(CountWaker(AtomicUsize::new(0))),
+            hook: HookState::new(),
             intr,
             effective: cfg.strat.effective() && cfg.api.shape == Shape::StreamIntr,
             held: Vec::new(),
@@ -891,7 +949,7 @@ impl<'g> Consumer<'g> {
     }
 
     fn woken(&self) -> bool {
-        self.cw.0.load(Ordering::SeqCst) > 0
+        self.hook.wakes.load(Ordering::SeqCst) > 0
     }
 
     fn stream_live(&self) -> bool {
@@ -934,6 +992,110 @@ impl<'g> Consumer<'g> {
         });
     }
 
+    /// One `poll_next`; with `in_poll_drop = Some((index in held, n))` the FnRef is
+    /// dropped at the n-th registration of the waker inside that poll.
+    fn do_poll(&mut self, in_poll_drop: Option<(usize, usize)>) {
+            let waker = self.hook.waker();
+            let mut cx = Context::from_waker(&waker);
+            self.hook.wakes.store(0, Ordering::SeqCst);
+            self.hook.clones.store(0, Ordering::SeqCst);
+            self.hook.armed_at.store(usize::MAX, Ordering::SeqCst);
+            let mut dropping: Option<usize> = None;
+            if let Some((ix, nth)) = in_poll_drop {
+                let f = self.held.remove(ix);
+                dropping = Some(f.id);
+                // SAFETY: lifetime erased for storage only; taken out again below or
+                // dropped by the hook during this very poll.
+                let f: FnRef<'static, TestFn> = unsafe { std::mem::transmute(f) };
+                *self.hook.slot.lock().unwrap() = Some(f);
+                self.hook.armed_at.store(nth, Ordering::SeqCst);
+            }
+            self.polled = true;
+            self.polls += 1;
+            let s = self.stream.as_mut().unwrap();
+            let r = catch_unwind(AssertUnwindSafe(|| s.as_mut().poll_next(&mut cx)));
+            self.hook.armed_at.store(usize::MAX, Ordering::SeqCst);
+            if let Some(id) = dropping {
+                let back = self.hook.slot.lock().unwrap().take();
+                match back {
+                    // the waker was not registered that often: nothing was dropped
+                    Some(f) => {
+                        let f: FnRef<'g, TestFn> = unsafe { std::mem::transmute(f) };
+                        self.held.insert(0, f);
+                    }
+                    // dropped inside the poll, i.e. before whatever the poll returned
+                    None => self.trace.push(Ev::End(id, false)),
+                }
+            }
+            match r {
+                Err(p) => {
+                    std::mem::forget(self.stream.take());
+                    let held = std::mem::take(&mut self.held);
+                    std::mem::forget(held);
+                    self.ret = Some(Ret::Panic(panic_msg(p)));
+                }
+                Ok(Poll::Pending) => {
+                    self.last_pending = true;
+                    self.note_quiet();
+                }
+                Ok(Poll::Ready(None)) => {
+                    self.last_pending = false;
+                    if self.yielded.len() != self.n && !self.interrupted_effectively() {
+                        let msg = format!(
+                            "stream ended after yielding {:?} of {} functions",
+                            self.yielded, self.n
+                        );
+                        self.violation("C05", "ended-early", msg);
+                    }
+                    if self.interrupted_effectively()
+                        && self.yielded.len() != self.n
+                        && !self.saw_intr_item
+                    {
+                        self.violation(
+                            "C08",
+                            "ended-without-interrupted-item",
+                            "interrupted stream ended early without an Interrupted item".into(),
+                        );
+                    }
+                    self.ended = true;
+                    self.ret = Some(Ret::StreamEnd);
+                    // Either drop the finished stream right away (before the
+                    // remaining FnRefs) or keep it until the very end; a
+                    // deterministic function of the action list.
+                    if self.acts.len() % 2 == 0 {
+                        let s = self.stream.take();
+                        if let Err(p) = catch_unwind(AssertUnwindSafe(move || drop(s))) {
+                            self.ret =
+                                Some(Ret::Panic(format!("on stream drop: {}", panic_msg(p))));
+                        }
+                    }
+                }
+                Ok(Poll::Ready(Some(item))) => {
+                    self.last_pending = false;
+                    if self.saw_intr_item {
+                        self.violation(
+                            "C08",
+                            "item-after-interrupted-item",
+                            "stream yielded an item after the Interrupted item".into(),
+                        );
+                    }
+                    let f = match item {
+                        Item::No(f) => Some(f),
+                        Item::Intr(f) => {
+                            self.saw_intr_item = true;
+                            f
+                        }
+                    };
+                    if let Some(f) = f {
+                        let id = f.id;
+                        self.trace.push(Ev::Start(id));
+                        self.yielded.push(id);
+                        self.held.push(f);
+                    }
+                }
+            }
+    }
+
     fn interrupted_effectively(&self) -> bool {
         self.effective && self.signal_sent
     }
@@ -965,6 +1127,12 @@ impl Stepper for Consumer<'_> {
         if self.stream_live() && self.intr.can_send() {
             v.push(Act::Interrupt);
         }
+        if self.stream_live() {
+            for f in self.held.iter().take(2) {
+                v.push(Act::PollDropping(f.id, 1));
+                v.push(Act::PollDropping(f.id, 2));
+            }
+        }
         if !wp && self.stream_live() {
             v.push(Act::Poll);
         }
@@ -977,80 +1145,18 @@ impl Stepper for Consumer<'_> {
                     return false;
                 }
                 self.acts.push(a);
-                let waker = Waker::from(self.cw.clone());
-                let mut cx = Context::from_waker(&waker);
-                self.cw.0.store(0, Ordering::SeqCst);
-                self.polled = true;
-                self.polls += 1;
-                let s = self.stream.as_mut().unwrap();
-                let r = catch_unwind(AssertUnwindSafe(|| s.as_mut().poll_next(&mut cx)));
-                match r {
-                    Err(p) => {
-                        std::mem::forget(self.stream.take());
-                        let held = std::mem::take(&mut self.held);
-                        std::mem::forget(held);
-                        self.ret = Some(Ret::Panic(panic_msg(p)));
-                    }
-                    Ok(Poll::Pending) => {
-                        self.last_pending = true;
-                        self.note_quiet();
-                    }
-                    Ok(Poll::Ready(None)) => {
-                        self.last_pending = false;
-                        if self.yielded.len() != self.n && !self.interrupted_effectively() {
-                            let msg = format!(
-                                "stream ended after yielding {:?} of {} functions",
-                                self.yielded, self.n
-                            );
-                            self.violation("C05", "ended-early", msg);
-                        }
-                        if self.interrupted_effectively()
-                            && self.yielded.len() != self.n
-                            && !self.saw_intr_item
-                        {
-                            self.violation(
-                                "C08",
-                                "ended-without-interrupted-item",
-                                "interrupted stream ended early without an Interrupted item".into(),
-                            );
-                        }
-                        self.ended = true;
-                        self.ret = Some(Ret::StreamEnd);
-                        // Either drop the finished stream right away (before the
-                        // remaining FnRefs) or keep it until the very end; a
-                        // deterministic function of the action list.
-                        if self.acts.len() % 2 == 0 {
-                            let s = self.stream.take();
-                            if let Err(p) = catch_unwind(AssertUnwindSafe(move || drop(s))) {
-                                self.ret =
-                                    Some(Ret::Panic(format!("on stream drop: {}", panic_msg(p))));
-                            }
-                        }
-                    }
-                    Ok(Poll::Ready(Some(item))) => {
-                        self.last_pending = false;
-                        if self.saw_intr_item {
-                            self.violation(
-                                "C08",
-                                "item-after-interrupted-item",
-                                "stream yielded an item after the Interrupted item".into(),
-                            );
-                        }
-                        let f = match item {
-                            Item::No(f) => Some(f),
-                            Item::Intr(f) => {
-                                self.saw_intr_item = true;
-                                f
-                            }
-                        };
-                        if let Some(f) = f {
-                            let id = f.id;
-                            self.trace.push(Ev::Start(id));
-                            self.yielded.push(id);
-                            self.held.push(f);
-                        }
-                    }
+                self.do_poll(None);
+                true
+            }
+            Act::PollDropping(id, nth) => {
+                if !self.stream_live() || nth == 0 {
+                    return false;
                 }
+                let Some(ix) = self.held.iter().position(|f| f.id == id) else {
+                    return false;
+                };
+                self.acts.push(a);
+                self.do_poll(Some((ix, nth)));
                 true
             }
             Act::Complete(id) => {
@@ -1135,6 +1241,8 @@ impl Stepper for Consumer<'_> {
 
 impl Drop for Consumer<'_> {
     fn drop(&mut self) {
+        let parked = self.hook.slot.lock().unwrap().take();
+        let _ = catch_unwind(AssertUnwindSafe(move || drop(parked)));
         // never let a panic in the code under test escape from a destructor
         let s = self.stream.take();
         let h = std::mem::take(&mut self.held);
